@@ -530,6 +530,12 @@ func (lb *LoadBalancer) RemoveBackend(name string) {
 			lb.strategy.RemoveBackend(backend)
 		}
 	}
+
+	// The failed responses on record belong to the backend that is gone: a backend registered
+	// under the same name later starts with none
+	lb.healthChecks.unhealthyBackendMu.Lock()
+	delete(lb.healthChecks.unhealthyBackends, name)
+	lb.healthChecks.unhealthyBackendMu.Unlock()
 }
 
 // NextBackend returns the next backend server according to the strategy
